@@ -127,6 +127,8 @@ type X struct {
 	polarity       int
 	noFacts        int
 	entryState     *State
+	pruneCalls     int
+	pruneSecs      float64
 	firedAsserts   map[int]bool
 	rsMemo         map[*ssa.Function]*writeSet
 	rsBusy         map[*ssa.Function]bool
